@@ -10,7 +10,7 @@ From DV Require Model.SchemaM.
 Open Scope Z_scope.
 
 Definition is_rest (f : tfield) : bool :=
-  match f with FHexRest | FB64Rest _ | FTxtRest | FBitmap | FQOpt | FNamesRest | FB64RestOpt | FB64RestE => true | _ => false end.
+  match f with FHexRest | FB64Rest _ | FTxtRest | FBitmap | FQOpt | FNamesRest | FB64RestOpt | FB64RestE | FKeyRec => true | _ => false end.
 
 (* non-empty; the fields that read the rest of the line come last *)
 Fixpoint schema_wf (fs : list tfield) : Prop :=
@@ -54,6 +54,9 @@ Definition val_ok (f : tfield) (v : tval) : Prop :=
   | FMac, VBytes b => all_bytes b = true /\ b <> [] /\ zlen b <= 65535
   | FOther, VBytes b => all_bytes b = true /\ zlen b <= 65535
   | FGposStr, VBytes b => (exists p, SchemaM.parse_float b = Some p) /\ zlen b <= 255
+  | FKeyRec, VKey f p a at_ k =>
+      0 <= f <= 65535 /\ 0 <= p <= 255 /\ 0 <= a <= 255 /\ at_ = [] /\ all_bytes k = true /\
+      (if Z.land f 49152 =? 49152 then k = [] else k <> [])
   | FGw ipsec, VGw g a gw =>
       0 <= a <= 255 /\ (ipsec = false -> a = 0) /\
       match gw with
@@ -202,10 +205,11 @@ Lemma field_ok sty c f v ftext v' R q bl :
     forall stX, get0 stX = Ok (t1, s1) -> (length (inp s1) <= length (inp stX))%nat ->
       exists raw st_end, parse_field c f stX = Ok (raw, st_end) /\ ctor_field f raw = Ok v' /\
         (is_rest f = false -> exists q', st_end = stq q' R) /\
-        (is_rest f = true -> (exists te, ungot st_end = Some te /\ is_eol_or_eof te = true) \/ exists q', st_end = stq q' R).
+        (is_rest f = true -> (exists te, ungot st_end = Some te /\ is_eol_or_eof te = true)
+                             \/ exists q' bl', forallb is_blank bl' = true /\ st_end = stq q' (bl' ++ R)).
 Proof.
   intros (Hhs & Hbs & HO) Hv Hp He Hbl HR1 HR2.
-  destruct f as [maxv| |tokmax ctormax ne| | |sc| |v6| | | | | |k| |maxc| |en| | | | |bmax| | | |ipsec| | | |]; destruct v as [z|b|n|l|ws|nl|g a gw]; cbn [val_ok] in Hv; try contradiction;
+  destruct f as [maxv| |tokmax ctormax ne| | |sc| |v6| | | | | |k| |maxc| |en| | | | |bmax| | | |ipsec| | | | |]; destruct v as [z|b|n|l|ws|nl|g a gw|kf kp ka kat kk]; cbn [val_ok] in Hv; try contradiction;
     cbn [print_field] in Hp; cbn [expect] in He; cbn [is_rest] in HR1, HR2.
   - (* FDec *)
     inversion Hp; subst ftext. inversion He; subst v'. specialize (HR1 eq_refl).
@@ -558,7 +562,7 @@ Proof.
       split; [exact E|]. split; [reflexivity|]. split; [repeat split; reflexivity|]. split.
       { unfold stq. cbn [inp pend app]. rewrite !app_length. cbn [length]. rewrite app_length. cbn [length]. lia. }
       intros stX HX _. exists (VBytes s), (stq true R).
-      split; [|split; [|split; [discriminate|intros _; right; exists true; reflexivity]]].
+      split; [|split; [|split; [discriminate|intros _; right; exists true, []; split; reflexivity]]].
       * cbn [parse_field]. unfold get_remaining, rem_fuel. rewrite grl_unfold_m. rewrite HX. cbn [bind].
         unfold is_eol_or_eof at 1. cbn [ttype]. change (tQUOTED =? tEOL) with false. change (tQUOTED =? tEOF) with false.
         cbn [orb]. change (negb (1 =? 0) && (zlen [mkTok tQUOTED (escapify s) he None] =? 1)) with true. cbv iota.
@@ -850,6 +854,62 @@ Proof.
       rewrite has_bs_safe by exact Hs. cbn [negb bind fst snd]. unfold as_string, is_identifier, is_quoted. cbn [ttype tvalue].
       change (tIDENT =? tIDENT) with true. change (0 =? 0) with true. reflexivity.
     + cbn [ctor_field]. rewrite utf8_ascii by exact Ha. cbn [bind]. replace (zlen b >? 255) with false by lia. reflexivity.
+  - (* FKeyRec *)
+    destruct Hv as (Hf & Hpr & Hal & -> & Hk & Hnk). inversion Hp; subst ftext. inversion He; subst v'.
+    specialize (HR2 eq_refl). clear Hp.
+    set (K := styled_base64ify kk (s_b64_chunk sty) (s_b64_sep sty)).
+    pose proof (dec_safe kf ltac:(lia)) as Hsf. pose proof (dec_safe kp ltac:(lia)) as Hsp. pose proof (dec_safe ka ltac:(lia)) as Hsa.
+    assert (Etext : bl ++ (dec kf ++ 32 :: dec kp ++ 32 :: dec ka ++ 32 :: K) ++ R
+                    = bl ++ dec kf ++ ([32] ++ dec kp ++ ([32] ++ dec ka ++ ([32] ++ K ++ R))))
+      by (rewrite <- !app_assoc; cbn [app]; rewrite <- !app_assoc; cbn [app]; rewrite <- !app_assoc; reflexivity).
+    rewrite Etext.
+    exists (mkTok tIDENT (dec kf) (has_bs (dec kf)) None), (stq false ([32] ++ dec kp ++ ([32] ++ dec ka ++ ([32] ++ K ++ R)))).
+    split; [apply get0_word_q; auto using units_safe, dec_nonempty; apply word_end_blank32|].
+    split; [reflexivity|]. split.
+    { unfold tok_plain, is_identifier. cbn [ttype tvalue]. rewrite safe_word_not_hash by exact Hsf. repeat split; reflexivity. }
+    split; [apply stq_len_word|].
+    intros stX HX _. rewrite has_bs_safe in HX by exact Hsf.
+    (* the three leading tokens *)
+    assert (Hhead : forall tail, (* what follows the algorithm token *)
+              word_end tail ->
+              (do ts <- get0 stX;
+               do flags <- key_number_or max16 (fun s => or_mnemonics (split_on 124 s []) 0) (fst ts);
+               do ps <- get0 (snd ts);
+               do proto <- key_number_or max8 (fun s => match assoc_text s key_protocols with Some v => Ok v | None => Lib eSyntax end) (fst ps);
+               do als <- get_string (snd ps) 0; Ok (flags, proto, als))
+              = Ok (kf, kp, (dec ka, stq false tail)) ->
+              True) by (intros; exact Logic.I).
+    clear Hhead.
+    assert (E2 : get0 (stq false ([32] ++ dec kp ++ ([32] ++ dec ka ++ ([32] ++ K ++ R))))
+                 = Ok (mkTok tIDENT (dec kp) false None, stq false ([32] ++ dec ka ++ ([32] ++ K ++ R)))).
+    { pose proof (get0_word_q false [32] (dec kp) ([32] ++ dec ka ++ ([32] ++ K ++ R)) eq_refl (units_safe _ Hsp)
+                    (dec_nonempty kp) (word_end_blank32 _)) as G.
+      rewrite has_bs_safe in G by exact Hsp. exact G. }
+    assert (E3 : get_string (stq false ([32] ++ dec ka ++ ([32] ++ K ++ R))) 0 = Ok (dec ka, stq false ([32] ++ K ++ R)))
+      by (exact (get_string_word false [32] (dec ka) ([32] ++ K ++ R) eq_refl Hsa (dec_nonempty ka) (word_end_blank32 _))).
+    cbn [parse_field]. unfold key_from_text. rewrite HX. cbn [bind fst snd].
+    unfold key_number_or at 1. rewrite (as_uint_dec max16 kf) by (unfold max16; lia). cbn [bind].
+    rewrite E2. cbn [bind fst snd]. unfold key_number_or. rewrite (as_uint_dec max8 kp) by (unfold max8; lia). cbn [bind].
+    rewrite E3. cbn [bind fst snd].
+    destruct (Z.land kf 49152 =? 49152) eqn:Enk; cbn [negb].
+    + (* NOKEY: nothing is read after the algorithm; the printed blank remains *)
+      subst kk. unfold K, styled_base64ify. change (b64encode []) with (@nil Z). rewrite wordbreak_nil. cbn [app].
+      exists (VKey kf kp 0 (dec ka) []), (stq false (32 :: R)).
+      split; [reflexivity|]. split; [cbn [ctor_field]; rewrite (alg_dec ka Hal); reflexivity|].
+      split; [discriminate|]. intros _. right. exists false, [32]. split; reflexivity.
+    + assert (Hs : forallb safe (b64encode kk) = true /\ all_ascii (b64encode kk) = true) by (apply b64encode_safe, Hk).
+      destruct Hs as [Hs Ha].
+      assert (Hch : chunked (b64encode kk) K) by (apply wordbreak_chunked; assumption).
+      assert (Hne' : b64encode kk <> []) by (destruct kk as [|x [|y [|z b'']]]; [congruence|discriminate|discriminate|discriminate]).
+      destruct (rest_bytes_ok b64decode (b64encode kk) kk K R false [32] Hch Hne' Ha (b64decode_b64encode kk Hk) eq_refl HR2)
+        as (t1 & s1 & G1 & G2 & G3 & G4 & G5).
+      destruct (G5 (stq false ([32] ++ K ++ R)) G1 G4 false) as (se & te & P1 & P2 & P3).
+      exists (VKey kf kp 0 (dec ka) kk), se. split.
+      { destruct (concatenate_remaining_identifiers (stq false ([32] ++ K ++ R)) false) as [[w s3]| |]; cbn [bind fst snd] in P1 |- *; try discriminate.
+        destruct (utf8_encode w) as [e| |]; cbn [bind] in P1 |- *; try discriminate.
+        destruct (b64decode e) as [d| |]; cbn [bind] in P1 |- *; try discriminate. inversion P1; subst. reflexivity. }
+      split; [cbn [ctor_field]; rewrite (alg_dec ka Hal); reflexivity|].
+      split; [discriminate|]. intros _. left. exists te. split; assumption.
 Qed.
 
 (* ---------- the whole field list ---------- *)
@@ -873,7 +933,7 @@ Qed.
 (* the text of a field that brings its own separator is empty or starts with a blank *)
 Lemma tail_text_shape sty f v b : field_sep f = [] -> print_field sty f v = Ok b -> b = [] \/ exists b', b = 32 :: b'.
 Proof.
-  intros Hs Hp. destruct f; try discriminate; destruct v as [z|x|n|l|ws|nl|g a gw]; try discriminate; cbn [print_field] in Hp.
+  intros Hs Hp. destruct f; try discriminate; destruct v as [z|x|n|l|ws|nl|g a gw|kf kp ka kat kk]; try discriminate; cbn [print_field] in Hp.
   - (* FBitmap *) destruct ws as [|w ws]; [inversion Hp; left; reflexivity|]. cbn [bitmap_to_text] in Hp.
     destruct (map_res rdtype_to_text (window_types (fst w) 0 (snd w))); cbn [bind] in Hp; try discriminate.
     destruct (bitmap_to_text ws); cbn [bind] in Hp; try discriminate. inversion Hp. right. eexists. reflexivity.
@@ -923,13 +983,13 @@ Proof.
     destruct (G5 stX HX HL) as (raw & se & P1 & Pc & P2 & P3). exists [raw], se.
     cbn [parse_fields ctor_fields]. rewrite P1. cbn [bind fst snd]. rewrite Pc. cbn [bind].
     split; [reflexivity|]. split; [reflexivity|]. unfold ends_ok.
-    assert (Hend : (exists te, ungot se = Some te /\ is_eol_or_eof te = true) \/ exists q', se = stq q' rest).
-    { destruct (is_rest f) eqn:Er; [exact (P3 eq_refl)|right; exact (P2 eq_refl)]. }
-    destruct Hend as [(te & Hu & Hte)|(q' & ->)].
+    assert (Hend : (exists te, ungot se = Some te /\ is_eol_or_eof te = true)
+                   \/ exists q' bl', forallb is_blank bl' = true /\ se = stq q' (bl' ++ rest)).
+    { destruct (is_rest f) eqn:Er; [exact (P3 eq_refl)|right; destruct (P2 eq_refl) as (q' & ->); exists q', []; split; reflexivity]. }
+    destruct Hend as [(te & Hu & Hte)|(q' & bl' & Hbl' & ->)].
     + destruct (get_eol_ungot se te Hu Hte) as (st' & E). eauto.
-    +
-      destruct (get0_end_q q' [] rest eq_refl Hrest) as (te & st' & H1 & _ & _ & _ & E).
-      cbn [app] in E. exists te, st'. unfold get_eol_as_token. rewrite E. cbn [bind fst]. rewrite H1. reflexivity.
+    + destruct (get0_end_q q' bl' rest Hbl' Hrest) as (te & st' & H1 & _ & _ & _ & E).
+      exists te, st'. unfold get_eol_as_token. rewrite E. cbn [bind fst]. rewrite H1. reflexivity.
   - (* a field followed by others *)
     destruct Hwf as [Hnr Hwf].
     destruct (print_fields_cons _ _ _ _ _ _ _ Hp) as (a & b & Pa & Pb & ->).
